@@ -310,6 +310,12 @@ func genC01Deep(t *rapid.T) *hist.Plan {
 	lenA := rapid.IntRange(505, 1100).Draw(t, "lenA")
 	forkAt := rapid.IntRange(0, lenA-501).Draw(t, "forkAt") // >= 501 headers of A lie above the fork point
 	lenB := rapid.IntRange(500, 1050).Draw(t, "lenB")
+	if rapid.IntRange(0, 2).Draw(t, "kilo") > 0 {
+		// both hash lists of the reorganisation hold 999 entries and more (SQLite's classic bound-variable limit)
+		lenA = rapid.IntRange(1000, 1100).Draw(t, "lenA2")
+		forkAt = rapid.IntRange(0, lenA-999).Draw(t, "forkAt2")
+		lenB = rapid.IntRange(998, 1050).Draw(t, "lenB2")
+	}
 	p := &hist.Plan{}
 	add := func(parent int, bits uint32) int {
 		i := len(p.Specs)
